@@ -51,6 +51,7 @@ DRIVER = r'''
 #include <csignal>
 #include <cstdlib>
 #include "all.hpp"
+#include "native_oracles.hpp"
 using namespace vfspec;
 static float vf_bits_f(uint32_t b){ float f; std::memcpy(&f,&b,4); return f; }
 static double vf_bits_d(uint64_t b){ double d; std::memcpy(&d,&b,8); return d; }
@@ -111,6 +112,8 @@ def make_driver(rp):
         for n in news:
             callst += '\n  show("%s", %s);' % (n, n)
         post = '%s(%s)' % (rp['post'], ', '.join(pargs)) if rp.get('post') else 'true'
+        if rp.get('native_post'):
+            post = '(%s) && %s(%s)' % (post, rp['native_post'], ', '.join(pargs))
     out = DRIVER
     for k, v in {'decls': '\n'.join(decls), 'shows': '\n'.join(shows), 'pre': pre, 'call': callst, 'post': post}.items():
         out = out.replace('@@%s@@' % k, v)
